@@ -39,7 +39,9 @@ def run(ctx):
     asts = sorted(set(astgen.seq_str(g.seq()) for _ in range(300 if ctx.quick else 3000)))
     outs = m.run(['den 0 0 0 %s []' % a for a in asts])
     pats = [dec(o.split(' ')[0]) for o in outs] + extra + ['!(a*)', '!a', '-a', 'a|b', '{a,b}c', '\\x41*', '~', '**/a', 'A?']
-    names = ['a', 'ab', 'b1', 'A', '.a', 'a.b', 'abc', 'x', 'a/b', '-a', '!a', 'ac', 'bc', 'Ab']
+    names = ['a', 'ab', 'b1', 'A', '.a', 'a.b', 'abc', 'x', 'a/b', '-a', '!a', 'ac', 'bc', 'Ab',
+             # directory-looking names and line feeds (NODIR's exclusion regex, `$`, `.` are written twice in the source: str and bytes)
+             'a/', 'a\nb/', 'a\n/', '\n', 'a\n', '.\n/', 'a/.', 'a/b/', 'a\nb/..', 'x\n/.', 'a\nb']
     evals = 0
     nontriv = set()
     opt_f = [Fm.EXTMATCH, Fm.NEGATE, Fm.SPLIT, Fm.BRACE, Fm.DOTMATCH, Fm.IGNORECASE, Fm.RAWCHARS, Fm.MINUSNEGATE, Fm.NEGATEALL]
